@@ -307,6 +307,24 @@ def run_f1(chk, P):
         for arch in ('sse', 'avx2', 'avx512'):
             r.check('init_mb_mgr_' + arch in callees, 'auto->' + arch, f.loc,
                     'init_mb_mgr_auto no longer initialises through init_mb_mgr_%s (self-test would be skipped)' % arch)
+        # whatever the architecture init recorded (IMB_ERR_SELFTEST included) is still there when init_mb_mgr_auto returns
+        for b2, i2, e2 in f.calls():
+            if not re.match(r'^init_mb_mgr_(sse|avx2|avx512)$', e2['e'].get('fn') or ''):
+                continue
+            wipes = []
+            seenb, stack = set(), [(b2, i2 + 1)]
+            while stack:
+                bb, i0 = stack.pop()
+                if (bb, i0 > 0) in seenb:
+                    continue
+                seenb.add((bb, i0 > 0))
+                for e3 in f.blocks[bb]['ev'][i0:]:
+                    if e3['k'] == 'call' and (not e3['e'].get('fn') or _sets_errno(P, tu, e3['e']['fn'])):
+                        wipes.append(e3)
+                stack.extend((s_, 0) for s_ in f.succ(bb))
+            r.check(not wipes, 'auto:%s:errno-kept' % e2['e']['fn'], (wipes[0] if wipes else e2)['loc'],
+                    'init_mb_mgr_auto calls %s and then, at %s, something that resets the manager\'s error code: a failed self-test (or missing CPU '
+                    'flags) is reported with errno 0' % (e2['e']['fn'], wipes[0]['loc'] if wipes else ''))
     else:
         chk.broken('init_mb_mgr_auto not found')
     # self_test(): PASS bit protocol
